@@ -229,3 +229,37 @@ def simulate_with_map(shape, mode, tunit=0):
             if abs(ta - tb) > 1e-9 * (1 + abs(ta)):
                 return False
     return True
+
+
+def chem_flags_dense(k, m, pat):
+    """dense chemostat maps (several flagged members of the SAME species in one group, for every species incl. the last): the coarse
+    flag is exactly 0 or 1 - 1 iff any member is flagged - for three species, so that a block-wise slip shows in a later block;
+    the exported right-hand side of the coarse system holds the flagged entries at zero rate"""
+    shape = [(2, 2, 1), (4, 1, 1), (2, 2, 2)][k]
+    w, h, d = shape
+    n = w * h * d
+    im = [[0] * n, [i // 2 for i in range(n)], [i % 2 for i in range(n)] if shape == (4, 1, 1) and False else [min(i // 2, 1) for i in range(n)]][m]
+    chem = []
+    for s in range(3):
+        for i in range(n):
+            chem.append([1 if (i + s) % 2 == 0 else 0, 1, 1 if i < 2 else 0, 1 if (s == 2) else 0][pat])
+    net = RDNetwork(species=[Species("A", D=1.0), Species("B", D=1.0), Species("C", D=1.0)], reactions=[Reaction("A + B -> C", kf=0.5, kr=0.25)])
+    st = [5.0 + k_ for k_ in range(3 * n)]
+    sysm = RDSystem(net, RDGridSpace(w=w, h=h, d=d, cell_vol=8.0), state=st, chemostats=chem)
+    cg = coarsegrain_system(sysm, im)
+    ng = max(im) + 1
+    if len(cg.chemostats) != 3 * ng:
+        return False
+    for s in range(3):
+        for g in range(ng):
+            want = 1 if any(chem[s * n + i] for i in range(n) if im[i] == g) else 0
+            got = cg.chemostats[s * ng + g]
+            if got != want or int(got) not in (0, 1):
+                return False
+    if ng == 1:
+        # the exported right-hand side exists for single-node systems: held entries have rate exactly 0
+        import numpy as _np
+        dx = cg.make_dxdtf()(0.0, _np.array([float(v) for v in cg.state.value]))
+        if not all(float(dx[j]) == 0.0 for j in range(3 * ng) if int(cg.chemostats[j])):
+            return False
+    return True
